@@ -196,9 +196,10 @@ Gen(a) ==
         : r \in GenE(e)}
 
 Nrel(np, d) == IF 1 <= np /\ np < d THEN 0 ELSE 1
-St(c) == IF c \in StrComps THEN {1, 2, StBad} ELSE {0}
+\* strengths: exactly 0 (ladder index 1), the next one, the largest (f64::MAX), an invalid one
+St(c) == IF c \in StrComps THEN {1, 2, StTop, StBad} ELSE {0}
 BaseCases(d) ==
-        {[CA(c, 0, pr, 0, 0, d, 1, Zeros(n, d), <<>>) EXCEPT !.st = st] : c \in RealMut, pr \in 0..3, n \in 0..2, st \in {0, 1, 2, StBad}}
+        {[CA(c, 0, pr, 0, 0, d, 1, Zeros(n, d), <<>>) EXCEPT !.st = st] : c \in RealMut, pr \in 0..3, n \in 0..2, st \in {0, 1, 2, StTop, StBad}}
         \cup {CA("BitFlipMutation", 0, pr, 0, 0, d, 1, pin, <<>>) : pr \in 0..3, pin \in BitPops(d)}
         \cup {CA("PartialRandomBitstring", 0, pr, p2, 0, d, 1, pin, <<>>) : pr \in 0..3, p2 \in 0..2, pin \in BitPops(d)}
         \cup {CA("ScrambleMutation", 0, pr, 0, 0, d, 1, pin, <<>>) : pr \in 0..3, pin \in PermPops(d)}
